@@ -88,7 +88,7 @@ def analyse_pullbacks(ctx):
     for n, fi in sorted(ci.methods.items()):
         if not (n.startswith('_pb_') or n.endswith('_pullback')) or n in PB_SKIP:
             continue
-        out[n] = ('pullback', KernelAnalysis(fi, model=m).run())
+        out[n] = ('pullback', KernelAnalysis(fi, model=m, extra_graded=_graded_by_callsites(ctx, fi)).run())
     ctx.cache['E2pb'] = out
     return out
 
@@ -127,6 +127,29 @@ def rule_pb_grade(prop):
         return r
     rule.__name__ = 'rule_pb_grade_' + prop
     return rule
+
+
+def _graded_by_callsites(ctx, fi):
+    """parameters of a (private) kernel that receive coefficient arrays at some call site inside the library: `X.data`, a `*_data`
+    name or a slice of those - so that renaming `x_data` to `u` in a private kernel does not hide it from the analysis"""
+    eff = ctx.effects
+    out = set()
+    for p_ in fi.value_params():
+        if p_.endswith('_data') or p_ == 'out':
+            continue
+        eff.param_bindings(fi, p_)
+        for caller, expr in eff._pbind.get((fi, p_), []):
+            e = expr
+            while isinstance(e, ast.Subscript):
+                e = e.value
+            if isinstance(e, ast.Attribute) and e.attr == 'data':
+                out.add(p_)
+            elif isinstance(e, ast.Name) and e.id.endswith('_data'):
+                out.add(p_)
+            elif isinstance(e, ast.Call) and (dotted_name(e.func) or '').split('.')[-1] in ('_transpose', 'zeros_like', '__zeros_like__', 'copy') \
+                    and e.args and isinstance(e.args[0], (ast.Name, ast.Attribute)) and (norm(e.args[0]).endswith('_data') or norm(e.args[0]).endswith('.data')):
+                out.add(p_)
+    return out
 
 
 def _delegates(m, fi, ka, have, depth=0):
@@ -225,16 +248,15 @@ ACCUMULATE_BY_CONTRACT = {
     '_iouter': 'in-place outer-product accumulation',
 }
 COVERAGE_EXEMPT = {
-    # (function, array): (which missing index is accepted: 'first' | 'last', reason)
-    ('_taylor_polynomials_of_ode_solutions', 'v_data'): ('first', 'v_data[0] is the recursion base supplied by the caller (docstring)'),
-    ('_taylor_polynomials_of_ode_solutions', 'v_tilde_data'): ('first', 'copy of v_data: entry 0 is the recursion base'),
-    ('_taylor_polynomials_of_ode_solutions', 's'): ('first', 'work array; s[0] is never read'),
-    ('_taylor_polynomials_of_ode_solutions', 'e_data'): ('last', 'e_data[D-1] is skipped by the justified guard `k < d`: no retained coefficient reads it'),
+    # (function, position of the array among the value parameters): (which missing index is accepted: 'first' | 'last', reason)
+    ('_taylor_polynomials_of_ode_solutions', 4): ('first', 'the first coefficient of the solution is the recursion base supplied by the caller (docstring)'),
 }
 
 
 def _coverage_exempt(fi, wit):
-    ex = COVERAGE_EXEMPT.get((fi.name, wit.get('array')))
+    vp = fi.value_params()
+    arr = wit.get('array')
+    ex = COVERAGE_EXEMPT.get((fi.name, vp.index(arr))) if arr in vp else None
     if ex is None:
         return None
     gaps = wit.get('gaps') or {wit.get('#D'): wit.get('missing')}
@@ -499,6 +521,45 @@ def rule_out_defined(ctx):
     return r
 
 
+def _harmless_degree_guard(ka, st):
+    """a guard on the truncation degree with no else-branch is harmless when everything its body stores is either
+      (a) a coefficient of index >= c under `D > c` (such coefficients do not exist when the guard fails), or
+      (b) an entry of a local work array that no read can hit (checked by O7 with the read filter: no O7 issue for that array),
+    plus plain local temporaries."""
+    if st.orelse:
+        return False
+    body_ids = {id(n) for b in st.body for n in ast.walk(b)}
+    stores = [w for w in ka.wlog if id(w[4]) in body_ids]
+    if not stores:
+        # only temporaries are bound (`x_sign = numpy.sign(x_data[0])`): they are consumed by coefficients of higher index
+        return all(isinstance(b, (ast.Assign, ast.AugAssign, ast.Expr, ast.For, ast.If)) for b in st.body) and \
+            not any(isinstance(n, (ast.Return, ast.Raise, ast.Break, ast.Continue)) for b in st.body for n in ast.walk(b))
+    c = None
+    t = st.test
+    if isinstance(t, ast.Compare) and len(t.ops) == 1:
+        l, r_, op = t.left, t.comparators[0], t.ops[0]
+        if isinstance(l, ast.Name) and l.id in ka.dsyms and isinstance(r_, ast.Constant) and isinstance(r_.value, int) and str(ka.aff_env.get(l.id)) == str(_AFF_D):
+            c = r_.value if isinstance(op, ast.Gt) else (r_.value - 1 if isinstance(op, ast.GtE) else None)
+        elif isinstance(r_, ast.Name) and r_.id in ka.dsyms and isinstance(l, ast.Constant) and isinstance(l.value, int) and str(ka.aff_env.get(r_.id)) == str(_AFF_D):
+            c = l.value if isinstance(op, ast.Lt) else (l.value - 1 if isinstance(op, ast.LtE) else None)
+    from .affine import lower_bound
+    o7_arrays = {(i.witness or {}).get('array') for i in ka.issues if i.ob == 'O7'}
+    for (name, kind, seq, loops, wst, branch, cons) in stores:
+        g = ka.gvars.get(name)
+        if g is not None and g.role == 'local' and name not in o7_arrays:
+            continue                                    # (b)
+        if c is not None:
+            e = kind[1]
+            try:
+                lb = lower_bound(e, ka._all_ranges([e]))
+            except Exception:
+                return False
+            if lb.is_const and lb.c >= c:
+                continue                                # (a)
+        return False
+    return True
+
+
 def _existence_guard(ka, st):
     """`if D > c:` (also `D >= c+1`, `c < D`) with no else-branch whose body touches graded arrays at constant coefficient
     indices only, the largest being c: the guard says exactly that this coefficient exists, so lower orders cannot
@@ -543,7 +604,7 @@ def analyse_all(ctx):
                 fi = ci.methods.get(n)
                 if fi is None:
                     raise AnalysisError('E2.anchor', ALGO + ':' + n, 'kernel vanished')
-            ka = KernelAnalysis(fi, raw_params=RAW.get(n, ()), model=m)
+            ka = KernelAnalysis(fi, raw_params=RAW.get(n, ()), model=m, extra_graded=_graded_by_callsites(ctx, fi))
             ka.defer_coverage = True
             ka.run()
             out[n] = (grp, ka)
@@ -592,7 +653,8 @@ def rule_grade(prop):
             mine = [i for i in ka.issues if i.ob in obs]
             others = [i for i in ka.issues if i.ob not in obs]
             for i in mine:
-                if i.ob == 'O7' and _coverage_exempt(fi, i.witness or {}) is None and (fi.name, (i.witness or {}).get('array')) in COVERAGE_EXEMPT:
+                if i.ob == 'O7' and _coverage_exempt(fi, i.witness or {}) is None and (i.witness or {}).get('array') in fi.value_params() \
+                        and (fi.name, fi.value_params().index(i.witness['array'])) in COVERAGE_EXEMPT:
                     i.msg += ' (beyond the accepted exception: D=%s misses %s)' % (i.witness.get('#D'), i.witness.get('missing'))
                 if i.ob == 'O7' and _coverage_exempt(fi, i.witness or {}) is not None:
                     r.note('%s: coefficient %s of `%s` not stored - accepted: %s' % (fi.qualname, i.witness.get('missing'), i.witness.get('array'),
@@ -630,6 +692,9 @@ def rule_grade(prop):
                     key = (fi.name, norm(st.test))
                     if all(isinstance(b, ast.Raise) for b in st.body) and not st.orelse:
                         r.ok(construct=fi.fq + ':shape-guard', sample='%s: `%s` only raises (input validation)' % (fi.qualname, norm(st.test)))
+                    elif _harmless_degree_guard(ka, st):
+                        r.ok(construct=fi.fq + ':work-guard', sample='%s: `%s` only guards statements that define coefficients which do not exist / are never read '
+                                                                     'when the guard fails' % (fi.qualname, norm(st.test)))
                     elif _existence_guard(ka, st):
                         r.ok(construct=fi.fq + ':existence-guard', sample='%s: `%s` is the existence condition of the coefficient index its body touches'
                                                                           % (fi.qualname, norm(st.test)))
